@@ -110,6 +110,7 @@ Definition events_of (r : wsgi_res) : response :=
   match r with
   | WsOk ev w st _ => ev ++ consume w st
   | WsEscaped ev => ev
+  | WsPassed ev => ev                                             (* the server sees the exception, no response *)
   | WsOutOfFuel => []
   end.
 
